@@ -753,6 +753,8 @@ func c24IsAuthCode(c int16) bool {
 
 // ---------------------------------------------------------------- ACL generation + tiers
 
+var c24Actions = []acl.Action{acl.ActionProduce, acl.ActionFetch, acl.ActionGroupRead, acl.ActionGroupWrite, acl.ActionGroupAdmin, acl.ActionAdmin}
+
 func c24RuleGen() *rapid.Generator[acl.Rule] {
 	return rapid.Custom(func(t *rapid.T) acl.Rule {
 		r := acl.Rule{}
@@ -770,7 +772,7 @@ func c24ConfigGen() *rapid.Generator[acl.Config] {
 			cfg.DefaultPolicy = "allow"
 		}
 		for _, name := range []string{"alice", "bob", "carol", "anonymous"} {
-			switch rapid.IntRange(0, 5).Draw(t, "entry-"+name) {
+			switch rapid.IntRange(0, 7).Draw(t, "entry-"+name) {
 			case 0: // not listed
 			case 1: // listed, no permission
 				cfg.Principals = append(cfg.Principals, acl.PrincipalRules{Name: name, Deny: rapid.SliceOfN(c24RuleGen(), 0, 1).Draw(t, "deny")})
@@ -778,6 +780,18 @@ func c24ConfigGen() *rapid.Generator[acl.Config] {
 				cfg.Principals = append(cfg.Principals, acl.PrincipalRules{Name: name,
 					Allow: rapid.SliceOfN(c24RuleGen(), 0, 2).Draw(t, "allow"),
 					Deny:  []acl.Rule{{Action: acl.ActionAny, Resource: acl.ResourceAny, Name: "*"}}})
+			case 3: // every action but one, on everything: lacks exactly one permission
+				missing := rapid.SampledFrom(c24Actions).Draw(t, "missingAction")
+				e := acl.PrincipalRules{Name: name}
+				for _, a := range c24Actions {
+					if a != missing {
+						e.Allow = append(e.Allow, acl.Rule{Action: a, Resource: acl.ResourceAny, Name: "*"})
+					}
+				}
+				cfg.Principals = append(cfg.Principals, e)
+			case 4: // exactly one action, on everything
+				only := rapid.SampledFrom(c24Actions).Draw(t, "onlyAction")
+				cfg.Principals = append(cfg.Principals, acl.PrincipalRules{Name: name, Allow: []acl.Rule{{Action: only, Resource: acl.ResourceAny, Name: "*"}}})
 			default:
 				cfg.Principals = append(cfg.Principals, acl.PrincipalRules{Name: name,
 					Allow: rapid.SliceOfN(c24RuleGen(), 1, 3).Draw(t, "allow"),
